@@ -190,6 +190,9 @@ class CaseInsensitiveDict(dict):
         return dict.pop(self, str(key).title(), default)
 
 
+_CONTROL_CHARS = re.compile('[\\x00-\\x08\\x0a-\\x1f\\x7f]')
+
+
 class Headers(CaseInsensitiveDict):
     """
     This class implements a storage for headers as key value pairs.
@@ -227,7 +230,10 @@ class Headers(CaseInsensitiveDict):
         return 'Headers(%s)' % repr(list(self.items()))
 
     def __str__(self):
-        headers = [f'{k}: {v}\r\n' for k, v in self.items()]
+        # a field value never carries CR, LF, NUL or other control characters
+        # on the wire (RFC 7230 3.2.4): request data reflected into a header
+        # (an echoed cookie, a Location) must not be able to add header lines
+        headers = [f'{k}: {_CONTROL_CHARS.sub(" ", v)}\r\n' for k, v in self.items()]
         return ''.join(headers) + '\r\n'
 
     def items(self):
